@@ -114,6 +114,43 @@ class Mat:
             if idx < -len(self.d) or idx >= len(self.d):
                 raise CERaise("IndexError", "vector index")
             return self.d[idx]
+        if isinstance(idx, tuple) and len(idx) == 2 and any(isinstance(x, (Mat, list)) for x in idx):
+            # one axis selected by a boolean mask / an index list, the other by a slice or an integer
+            nrows, ncols = self.shape
+
+            def sel(x, size):
+                if isinstance(x, slice):
+                    return list(range(*x.indices(size))), True
+                if isinstance(x, list):
+                    if x and all(isinstance(v, bool) for v in x):
+                        mm_ = Mat([int(v) for v in x], 1)
+                        mm_.is_bool = True
+                        x = mm_
+                    elif all(isinstance(v, int) and not isinstance(v, bool) for v in x):
+                        x = Mat(list(x), 1)
+                    else:
+                        raise Unsupported("index list of mixed type")
+                if isinstance(x, Mat) and x.ndim == 1:
+                    if getattr(x, "is_bool", False):
+                        if len(x.d) != size:
+                            raise CERaise("IndexError", f"boolean index did not match indexed array along axis; size of axis is {size} but size of corresponding boolean axis is {len(x.d)}")
+                        return [k for k, b in enumerate(x.d) if b], True
+                    if any(k < -size or k >= size for k in x.d):
+                        raise CERaise("IndexError", "index out of bounds")
+                    return [k % size for k in x.d], True
+                if isinstance(x, int) and not isinstance(x, bool):
+                    if x < -size or x >= size:
+                        raise CERaise("IndexError", "index out of bounds")
+                    return [x % size], False
+                raise Unsupported(f"matrix index of type {type(x).__name__}")
+            (rs, rkeep), (cs, ckeep) = sel(idx[0], nrows), sel(idx[1], ncols)
+            if rkeep and ckeep:
+                out = Mat([[self.d[r][c] for c in cs] for r in rs], 2)
+                out.ncols = len(cs)
+                return out
+            if rkeep:
+                return Mat([self.d[r][cs[0]] for r in rs], 1)
+            return Mat([self.d[rs[0]][c] for c in cs], 1)
         if isinstance(idx, tuple):
             i, j = idx
             rs = self._rows(i)
